@@ -398,3 +398,48 @@ def add_leaks(rng, scn, n, tanks=True, p_removed=0.1):
                              'start': start, 'end': end, 'removed': rng.chance(p_removed)})
         made += 1
     return made
+
+
+def _status_action(rng, link):
+    return {'link': link['id'], 'attr': 'status', 'value': rng.pick(['OPEN', 'CLOSED'])}
+
+
+def add_rules(rng, scn, n, kinds=('time', 'clock', 'level'), targets=None, on_rule_grid=True, p_else=0.4, p_compound=0.3):
+    """rules IF <cond> THEN <actions> [ELSE <actions>] PRIORITY p"""
+    o = scn['options']
+    rs = o.get('rule_step', 360)
+    dur = o['duration']
+    tg = targets if targets is not None else plain_pipes(scn)
+    if not tg:
+        tg = [l for l in scn['links'] if l['type'] == 'pipe' and not l.get('cv')]
+    tanks = [nd for nd in scn['nodes'] if nd['type'] == 'T']
+    if not tg:
+        return 0
+
+    def simple_cond():
+        k = rng.pick([x for x in kinds if x != 'level' or tanks])
+        if k == 'time':
+            t = rng.irange(0, max(1, dur // rs)) * rs if on_rule_grid else time_instant(rng, scn)
+            return {'t': 'simtime', 'rel': rng.pick(['>=', '<', '=', '>', '<=']), 'thr': int(t)}
+        if k == 'clock':
+            t = rng.irange(0, max(1, dur // rs)) * rs if on_rule_grid else time_instant(rng, scn)
+            c = (t + o.get('start_clocktime', 0)) % 86400
+            return {'t': 'clock', 'rel': rng.pick(['>=', '<', '=', '>', '<=']), 'thr': int(c)}
+        tk = rng.pick(tanks)
+        thr = _r(tk['min'] + (tk['max'] - tk['min']) * rng.uni(0.1, 0.9), 3)
+        return {'t': 'level', 'tank': tk['id'], 'attr': 'level', 'rel': rng.pick(['<', '>', '<=', '>=']), 'thr': thr}
+    made = 0
+    for _ in range(n):
+        cond = simple_cond()
+        if rng.chance(p_compound):
+            cond = {'t': rng.pick(['and', 'or']), 'a': cond, 'b': simple_cond()}
+        l = rng.pick(tg)
+        then = [_status_action(rng, l)]
+        els = []
+        if rng.chance(p_else):
+            els = [{'link': l['id'], 'attr': 'status', 'value': 'OPEN' if then[0]['value'] == 'CLOSED' else 'CLOSED'}]
+        name = 'rule%d' % (len(scn['controls']) + 1)
+        scn['controls'].append({'name': name, 'kind': 'rule', 'cond': cond, 'then': then, 'else': els,
+                                'priority': rng.pick([0, 1, 2, 3, 3, 4, 5, 6])})
+        made += 1
+    return made
